@@ -1,0 +1,56 @@
+//go:build verif
+
+package jrpc2
+
+import (
+	"sort"
+
+	"github.com/creachadair/jrpc2/internal/vhook"
+)
+
+// VerifInstall installs the verification hook functions; see internal/vhook.
+// It exists only in builds with the "verif" tag.
+func VerifInstall(point, event func(string, ...any)) { vhook.Install(point, event) }
+
+// VerifServerState is a read-only snapshot of a server's bookkeeping.
+type VerifServerState struct {
+	Reserved  []string // request IDs currently reserved
+	Callbacks []string // push-call IDs awaiting a reply
+	QueueLen  int      // batches awaiting dispatch
+	Running   bool     // whether the server has a channel
+}
+
+// VerifSnapshot returns a snapshot of the server's bookkeeping.
+func (s *Server) VerifSnapshot() VerifServerState {
+	s.mu.Lock()
+	defer s.mu.Unlock()
+	st := VerifServerState{QueueLen: s.inq.Len(), Running: s.ch != nil}
+	for id := range s.used {
+		st.Reserved = append(st.Reserved, id)
+	}
+	for id := range s.call {
+		st.Callbacks = append(st.Callbacks, id)
+	}
+	sort.Strings(st.Reserved)
+	sort.Strings(st.Callbacks)
+	return st
+}
+
+// VerifClientState is a read-only snapshot of a client's bookkeeping.
+type VerifClientState struct {
+	Pending []string // request IDs awaiting a reply
+	NextID  int64
+	Stopped bool
+}
+
+// VerifSnapshot returns a snapshot of the client's bookkeeping.
+func (c *Client) VerifSnapshot() VerifClientState {
+	c.mu.Lock()
+	defer c.mu.Unlock()
+	st := VerifClientState{NextID: c.nextID, Stopped: c.ch == nil}
+	for id := range c.pending {
+		st.Pending = append(st.Pending, id)
+	}
+	sort.Strings(st.Pending)
+	return st
+}
